@@ -28,6 +28,20 @@ CLAIMED = {
                      "hash congruence are lemmas.",
                 note=TRUST + " Subtraction is real subtraction (A1); hash(tuple) is an uninterpreted function of the element sequence.",
                 tech="deductive verification: loop invariant + postcondition over symbolic-length vectors (pyvc/z3)"),
+    "C05": dict(cat="proof", ref="5/C05",
+                text="Job.evaluate, Evaluator.evaluate_serial/evaluate/evaluate_scalar, Algorithm.evaluate, Individual.__init__ / "
+                     "calc_signed_costs, the sign loop of Problem.__init__, SweepAlgorithm.run and the SciPy/NLopt bridges are verified "
+                     "against a ghost call log of the objective and a ghost per-design evaluation counter: exactly-once evaluation, "
+                     "costs belong to the stored vector, signed costs and feasibility marker, for every batch and every path.",
+                note=TRUST + " User objective/constraints and external optimisers are assumed contracts; serial evaluation; default surrogate.",
+                tech="deductive verification: ghost call log + per-object ghost counters, loop invariants over batches (pyvc/z3)"),
+    "C06": dict(cat="proof", ref="5/C06",
+                text="All paths of Job.evaluate's retry loop (success, TimeoutError, RuntimeError, other exception, exhaustion) are "
+                     "verified with a loop invariant over the attempt counter: failed copies recorded with the failing vector, at most "
+                     "five attempts, RuntimeError after five, non-transient exceptions never swallowed, re-rolled designs inside the box "
+                     "(gen_vector / gen_number verified over the reals).",
+                note=TRUST + " Exceptions other than TimeoutError/RuntimeError are one abstract class; rounding in gen_number is real arithmetic.",
+                tech="deductive verification with exceptional postconditions (raises clauses) and ghost counters (pyvc/z3)"),
     "C18": dict(cat="proof", ref="5/C18",
                 text="Personal-best update, velocity clamp (speed_constriction and both update_velocity variants), the three "
                      "update_position variants and the three select_leader variants are verified for swarms of any size and dimension: "
